@@ -426,3 +426,78 @@ package listz
 //@     invariant 0 <= i && i <= level && level <= s.level && node != nil && len(node.next) == level && node != s.head
 //@     invariant len(update) == 32 && notTowerC(update) && predsOKc(update, 0, level)
 //@     invariant towerOKc() && skOKc(s) && len(s.head.next) == 32 && s.len < 9223372036854775807
+
+// ---------------------------------------------------------------------------------------------------------------
+// SyncList (C11): rely-guarantee verification of the lock-free queue, for any number of goroutines.
+// Ghost state: every node carries its position idx in the one list of all nodes ever published to its list lst
+// (0 / nil while unpublished); the list carries n, the number of published nodes (the dummy is number 1), and last.
+// Every sync/atomic call is one atomic step; between two steps of this goroutine the others may do anything allowed
+// by the rely clauses. Shared invariant: head and tail are published nodes of l with idx(head) <= idx(tail),
+// the tail lags behind the last node by at most one, published nodes are chained by next in idx order, the last
+// node's next is nil, idx is injective per list.
+// ---------------------------------------------------------------------------------------------------------------
+//@ ghostfield syncNode.idx
+//@ ghostfield syncNode.lst
+//@ ghostfield SyncList.n
+//@ ghostfield SyncList.last
+
+//@ spec pidx(p ref) int = cast(syncNode, p).idx
+//@ spec plst(p ref) int = cast(syncNode, p).lst
+//@ spec slEnds(l ref) bool = l != nil && l.head != nil && l.tail != nil && l.last != nil && plst(l.head) == l && plst(l.tail) == l && plst(l.last) == l && 1 <= pidx(l.head) && pidx(l.head) <= pidx(l.tail) && pidx(l.tail) <= l.n && pidx(l.last) == l.n && pidx(l.tail) >= l.n - 1 && cast(syncNode, l.last).next == nil
+//@ spec slChain(l ref) bool = forall x in refs(syncNode): (x != nil && x.lst == l && x.idx < l.n) ==> (x.next != nil && plst(x.next) == l && pidx(x.next) == x.idx + 1)
+//@ spec slRange(l ref) bool = forall x in refs(syncNode): (x != nil && x.lst == l) ==> (1 <= x.idx && x.idx <= l.n)
+//@ spec slInj(l ref) bool = forall a, b in refs(syncNode): (a != nil && b != nil && a.lst == l && b.lst == l && a.idx == b.idx) ==> a == b
+// what the other goroutines may do between two of my steps (reflexive, transitive): published nodes stay published
+// at their position, a next pointer of a published node is set once, head/tail/n only move forward
+//@ spec slRelyNodes(l ref) bool = forall x in refs(syncNode): old(x.lst) == l ==> (x.lst == l && x.idx == old(x.idx) && (old(x.next) != nil ==> x.next == old(x.next)))
+//@ spec slRelyEnds(l ref) bool = pidx(l.head) >= old(pidx(l.head)) && pidx(l.tail) >= old(pidx(l.tail)) && l.n >= old(l.n)
+
+//@ func SyncList.Len
+//@   sharedinv slEnds(l) && slChain(l) && slRange(l) && slInj(l)
+//@   rely slRelyNodes(l) && slRelyEnds(l)
+//@   guarantee slRelyNodes(l) && slRelyEnds(l)
+
+// Push: the new node stays private (unpublished, untouched by others) until the CAS on the last node's next pointer
+// publishes it as number n+1 (linearisation point); then the tail is moved onto it. While the tail lags behind the
+// last node nobody else can publish (their CAS needs a nil next on the node they read from the tail).
+//@ func SyncList.Push
+//@   noterm
+//@   nomerge
+//@   wraps
+//@   sharedinv slEnds(l) && slChain(l) && slRange(l) && slInj(l)
+//@   rely slRelyNodes(l) && slRelyEnds(l)
+//@   rely old(plst(node)) != l ==> (plst(node) == old(plst(node)) && pidx(node) == old(pidx(node)) && cast(syncNode, node).next == old(cast(syncNode, node).next))
+//@   rely (old(l.last) == node && old(pidx(l.tail)) == old(l.n) - 1) ==> (l.n == old(l.n) && l.last == node && l.tail == old(l.tail))
+//@   guarantee slRelyNodes(l) && slRelyEnds(l)
+//@   guarantee forall x in refs(syncNode): (x != cast(syncNode, node) && old(x.lst) != l) ==> (x.lst == old(x.lst) && x.idx == old(x.idx) && x.next == old(x.next))
+//@   guarantee (l.n != old(l.n) || l.tail != old(l.tail)) ==> (old(pidx(l.tail)) == old(l.n) || old(l.last) == node)
+//@   ensures plst(node) == l && pidx(node) >= 2 && pidx(l.tail) >= pidx(node)
+//@   loop 1:
+//@     invariant node != nil && plst(node) == 0 && pidx(node) == 0 && cast(syncNode, node).next == nil
+//@     invariant slEnds(l) && slChain(l) && slRange(l) && slInj(l)
+//@   at after-call5:
+//@     ghost cast(syncNode, node).idx = ite(last_ret, l.n + 1, 0)
+//@     ghost cast(syncNode, node).lst = ite(last_ret, l, 0)
+//@     ghost l.last = ite(last_ret, node, l.last)
+//@     ghost l.n = ite(last_ret, l.n + 1, l.n)
+
+// Pop: the head is read first, then the tail; if they differ the head has a successor (the tail was at or beyond the
+// head when it was read), and the CAS moves the head forward by exactly one position, so every published position is
+// handed out to exactly one successful Pop, in order. If they are equal the list was empty at the instant the tail
+// was read.
+//@ func SyncList.Pop
+//@   nomerge
+//@   wraps
+//@   sharedinv slEnds(l) && slChain(l) && slRange(l) && slInj(l)
+//@   rely slRelyNodes(l) && slRelyEnds(l)
+//@   guarantee slRelyNodes(l) && slRelyEnds(l)
+//@   guarantee forall x in refs(syncNode): old(x.lst) != l ==> (x.lst == old(x.lst) && x.idx == old(x.idx) && x.next == old(x.next))
+//@   guarantee l.n == old(l.n) && l.tail == old(l.tail) && l.last == old(l.last)
+//@   guarantee pidx(l.head) <= old(pidx(l.head)) + 1
+//@   at after-call2:
+//@     assert plst(head) == l && plst(tail) == l && pidx(head) <= pidx(l.head) && pidx(l.head) <= pidx(tail)
+//@     assert head == tail ==> pidx(l.head) == pidx(l.tail)
+//@   at after-call4:
+//@     assert head != tail ==> (next != nil && plst(next) == l && pidx(next) == pidx(head) + 1)
+//@   at after-call5:
+//@     assert last_ret ==> (pidx(l.head) == pidx(head) + 1 && l.head == next)
